@@ -62,7 +62,8 @@ def resp (ws : List String) : String :=
     | .ok p =>
       match Request.fromPacket p 7 with
       | .ok r0 =>
-        let resp1 : Res (Option Packet) := match r0.response with
+        let noresp := (pre.splitOn ",").contains "noresp"
+        let resp1 : Res (Option Packet) := match (if noresp then none else r0.response) with
           | none => .ok none
           | some m =>
             (applyReplyTweaks pre ((parsePre pre).foldl (fun (m : Packet) (kv : Nat × Bytes) =>
